@@ -51,6 +51,7 @@ type HarnessResult struct {
 	ArithOnly     int               `json:"obligations_discharged_by_arithmetic_abstraction"`
 	StageL        int               `json:"queries_decided_by_exact_length_abstraction"`
 	StageG        int               `json:"sat_verdicts_by_guess_and_check_model"`
+	Opaque        int               `json:"secrecy_obligations_by_ideal_term_walk,omitempty"`
 	BoundTooSmall int               `json:"queries_where_string_bound_admitted_no_model_of_path_condition"`
 }
 
@@ -295,6 +296,7 @@ func (w *World) runHarness(h *Harness, workers int, solverKind string, nvalid in
 				res.CacheHits += pr.CacheHits
 				res.ArithOnly += pr.ArithOnly
 				res.StageL += pr.StageL
+				res.Opaque += pr.Opaque
 				res.StageG += pr.StageG
 				res.BoundTooSmall += pr.BoundTooSmall
 				for f, n := range pr.Funcs {
